@@ -18,3 +18,8 @@ package tagreplication
 //@   loop 0 invariant idx: 0 - 1 <= rangeindex && rangeindex < len(t.Dependencies)
 //@   loop 0 invariant done: forall j int :: 0 <= j && j <= rangeindex ==> (t.Dependencies[j].hex in e.originCluster.replicated)
 //@   loop 0 invariant same_task: t != nil && e.originCluster == entry(e.originCluster)
+
+// A new task is the tag, digest, dependency list and destination it was given.
+//@ func NewTask
+//@   modifies *
+//@   ensures as_given: result != nil && result.Tag == tag && result.Digest == d && result.Dependencies == dependencies && result.Destination == destination && result.Delay == delay
